@@ -774,6 +774,84 @@ variant("bdat-redundant-restore-dropped",
 variant("handle-redundant-toupper-dropped",
   ("conn.go", """	cmd = strings.ToUpper(cmd)
 	switch cmd {""", """	switch cmd {"""))
+variant("reset-pure-stores-after-callback",
+  ("conn.go", """	c.bdatStatus = nil
+	c.bytesReceived = 0
+
+	if c.session != nil {
+		c.session.Reset()
+	}
+
+	c.fromReceived = false
+	c.recipients = nil
+}""", """	if c.session != nil {
+		c.session.Reset()
+	}
+
+	c.bdatStatus = nil
+	c.bytesReceived = 0
+	c.fromReceived = false
+	c.recipients = nil
+}"""))
+variant("close-lmtp-local",
+  ("client.go", """	expectedResponses := len(d.c.rcpts)
+	if d.c.lmtp {""", """	expectedResponses := len(d.c.rcpts)
+	perRecipient := d.c.lmtp
+	if perRecipient {"""))
+variant("bdat-result-renamed",
+  ("conn.go", """		err := <-c.dataResult
+
+		if c.server.LMTP {
+			c.bdatStatus.fillRemaining(err)""", """		dataErr := <-c.dataResult
+
+		if c.server.LMTP {
+			c.bdatStatus.fillRemaining(dataErr)"""),
+  ("conn.go", "			c.writeResponse(dataErrorToStatus(err))\n		}\n\n		if err == errPanic {", "			c.writeResponse(dataErrorToStatus(dataErr))\n		}\n\n		if dataErr == errPanic {"))
+variant("newsession-error-local",
+  ("conn.go", """			c.helo = ""
+			c.writeError(451, EnhancedCode{4, 0, 0}, err)
+			return""", """			c.helo = ""
+			sessErr := err
+			c.writeError(451, EnhancedCode{4, 0, 0}, sessErr)
+			return"""))
+variant("lmtp-data-own-defer",
+  ("conn.go", """	defer c.reset()
+
+	if c.server.LMTP {
+		c.handleDataLMTP()
+		return
+	}
+""", """	if c.server.LMTP {
+		defer c.reset()
+		c.handleDataLMTP()
+		return
+	}
+
+	defer c.reset()
+"""))
+variant("mail-helo-check-in-dispatcher",
+  ("conn.go", """	cmd = strings.ToUpper(cmd)
+	switch cmd {""", """	cmd = strings.ToUpper(cmd)
+	if cmd == "MAIL" && c.helo == "" {
+		c.writeResponse(502, EnhancedCode{5, 5, 1}, "Please introduce yourself first.")
+		return
+	}
+	switch cmd {"""),
+  ("conn.go", """func (c *Conn) handleMail(arg string) {
+	if c.helo == "" {
+		c.writeResponse(502, EnhancedCode{5, 5, 1}, "Please introduce yourself first.")
+		return
+	}
+""", """func (c *Conn) handleMail(arg string) {
+"""))
+variant("notify-join-gt-zero",
+  ("client.go", """				if i != 0 {
+					sb.WriteString(",")
+				}""", """				if i > 0 {
+					sb.WriteString(",")
+				}"""))
+variant("mail-size-gt-zero",
+  ("client.go", """	if _, ok := c.ext["SIZE"]; ok && opts != nil && opts.Size != 0 {""", """	if _, ok := c.ext["SIZE"]; ok && opts != nil && opts.Size > 0 {"""))
 if sys.argv[1:] == ['--export']:
     out = [{"id": "benign-" + n, "edits": [{"file": f, "old": o, "new": w} for f, o, w in V[n]]} for n in V]
     json.dump(out, open('/verif/liveness/benign.json', 'w'), indent=1)
